@@ -454,4 +454,4 @@ MANIFEST = {
     'design_ref': 'DESIGN.md 3/C11',
 }
 MANIFEST['note'] += (' Also decided here (necessary conditions shared between properties or added after the independent '
-                     'change rounds, DESIGN.md 8.7): configuration lists translated entry by entry (from C19), configuration objects and value classes never mutated in place, wire layout of Transform / Proposal / key-length attribute (from C05).')
+                     'change rounds, DESIGN.md 8.7): configuration lists translated entry by entry (from C19), configuration objects and value classes never mutated in place, wire layout of Transform / Proposal / key-length attribute (from C05). Rounds 7-8: existence of the suggested DH group among our transforms in any spelling (membership, any, not all).')
